@@ -592,7 +592,7 @@ func (ex *Exec) doIndexAddr(fr *Frame, in *ssa.IndexAddr, pc Term, st State) {
 		inb := and(app(SBool, "<=", intLit(0), i), app(SBool, "<", i, sLen(s)))
 		ex.safetyObl(fr, "bounds", in.Pos(), pc, inb, "slice index "+in.X.Name()+"["+in.Index.Name()+"]")
 		ex.vc.assume(pc, inb, "index in range")
-		r := ex.vc.def(in.Name(), refElem(sBase(s), app(SInt, "+", sOff(s), i)))
+		r := ex.vc.def(in.Name(), sliceAt(s, i))
 		fr.vals[in] = r
 		fr.addrs[in] = &Addr{Ref: r, Elem: xt.Elem()}
 	case *types.Pointer:
